@@ -97,7 +97,9 @@ func (e *DefaultExecutor) Execute(ctx context.Context, job *Job) ([]byte, error)
 	}()
 
 	offset := e.buf.Len()
+	verifGate(ctx, "CmdStart", job, nil)
 	err = e.interp.Run(ctx, cmd)
+	verifGate(ctx, "CmdEnd", job, err)
 	if err != nil {
 		return e.buf.Bytes()[offset:], err
 	}
